@@ -29,6 +29,12 @@ fn check_error(acc: &mut Acc, sub: &str, rank: u64, input: &[u8], po: &PO, src: 
             }
         }
     }
+    // the category predicates are the category (a streaming caller asks is_eof())
+    let preds = (e.is_io(), e.is_syntax(), e.is_eof());
+    let want_preds = (cat == Category::Io, cat == Category::Syntax, cat == Category::Eof);
+    if preds != want_preds {
+        acc.violation(sub, "category-predicates", "category-predicates", rank, w(), format!("classify() = {:?} but (is_io, is_syntax, is_eof) = {:?}", cat, preds), case);
+    }
     // conversion to io::Error
     let ioe: io::Error = e.into();
     let want = match cat {
@@ -105,7 +111,8 @@ fn check_truncations_sub(acc: &mut Acc, sub: &str, rank: u64, text: &[u8], po: &
                     acc.nontrivial += 1;
                     let cat = e.classify();
                     acc.outcome(&(cat == Category::Eof));
-                    if cat != Category::Eof {
+                    // both ways of asking: classify() and the is_eof() predicate a streaming caller uses
+                    if cat != Category::Eof || !e.is_eof() || e.is_syntax() {
                         let msg = e.to_string();
                         let kind = msg.split(" at line").next().unwrap_or("").to_string();
                         let (h, pi) = (hex(text), po.index());
